@@ -12,7 +12,7 @@ import (
 
 func init() {
 	register("C27", propMeta{
-		Explanation: "Decides the discipline of the code that writes the passive side: (R1) passive-writer siblings: every function that writes under formatPassiveFolderEntity or through a tracker copy with the folder toggler inverted (registry Replicate, store-repository Replicate, the fileIO replay `replicate`) must be a no-op when replication is off OR has already failed (`!replicate || FailedToReplicate`), and must call handleFailedToReplicate on every failed passive write, so that one failure turns replication off instead of repeating against a broken drive; (R2) a passive failure never fails a commit: the replication closures of phase2Commit return nil on every path and run only after the commit point; (R3) ReinstateFailedDrives runs its steps in the order the catch-up depends on: start logging commit changes, copy stores and registry segments, fast-forward until no log is left, turn replication on, fast-forward again; (R4) the reinstating copy copies every registry segment file of every store unconditionally: in copyFilesByExtension each directory entry with the extension reaches copyFile or an error return - no entry is skipped on the strength of the target's current state (size, time), which says nothing about a partially replicated commit.",
+		Explanation: "Decides the discipline of the code that writes the passive side: (R1) passive-writer siblings: every function that writes under formatPassiveFolderEntity or through a tracker copy with the folder toggler inverted (registry Replicate, store-repository Replicate, the fileIO replay `replicate`) must be a no-op when replication is off OR has already failed (`!replicate || FailedToReplicate`), and must call handleFailedToReplicate on every failed passive write, so that one failure turns replication off instead of repeating against a broken drive; (R2) a passive failure never fails a commit: the replication closures of phase2Commit return nil on every path and run only after the commit point; (R3) ReinstateFailedDrives runs its steps in the order the catch-up depends on: start logging commit changes, copy stores and registry segments, fast-forward until no log is left, turn replication on, fast-forward again; (R4) the reinstating copy copies every registry segment file of every store unconditionally: in copyFilesByExtension each directory entry with the extension reaches copyFile or an error return - no entry is skipped on the strength of the target's current state (size, time), which says nothing about a partially replicated commit; and what it copies is read from the active side, i.e. before the folder toggler is flipped towards the passive side.",
 		DoesNotCover: "Equality of the passive copy's contents after arbitrary histories and failover behaviour are runtime matters; what fast-forward applies is not decided.",
 	}, runC27)
 }
@@ -253,6 +253,39 @@ func runC27(c *Ctx) {
 			okAll = !r.Seen[sl.ID]
 		}
 		c.Check(okAll, r4, "CopyToPassiveFolders: the registry segments of every listed store are copied", fc.Decl.Pos(), "every iteration reaches copyFilesByExtension (vanished stores excepted)", "a store's registry segments can be left out of the reinstating copy", nil)
+		// what is copied is read from the ACTIVE side: no read of the repository (Get / GetAll / GetWithTTL) while the
+		// folder toggler is flipped towards the passive side
+		{
+			ci := fc.Pkg.TypesInfo
+			var flip *GNode
+			for _, n := range gc.Nodes {
+				if as, isAs := n.Ast.(*ast.AssignStmt); isAs && len(as.Lhs) == 1 && len(as.Rhs) == 1 {
+					if fv := fieldOfSelector(ci, as.Lhs[0]); fv != nil && fv.Name() == "ActiveFolderToggler" {
+						if u, isU := ast.Unparen(as.Rhs[0]).(*ast.UnaryExpr); isU && u.Op == token.NOT {
+							flip = n
+						}
+					}
+				}
+			}
+			okSrc := flip != nil
+			var bad []string
+			if okSrc {
+				r := gc.Reach(gc.after(flip), nil, nil)
+				for _, x := range gc.Nodes {
+					if !r.Seen[x.ID] {
+						continue
+					}
+					for _, cs := range x.Calls {
+						if cs.Key == "fs.StoreRepository.Get" || cs.Key == "fs.StoreRepository.GetWithTTL" || cs.Key == "fs.StoreRepository.GetAll" || cs.Key == "fs.StoreRepository.getFromCache" {
+							okSrc = false
+							bad = append(bad, shortKey(cs.Key)+" @"+w.PosStr(cs.Call.Pos()))
+						}
+					}
+				}
+			}
+			c.Check(okSrc, r4, "CopyToPassiveFolders: store infos are read from the active side (before the folder toggler is flipped)", fc.Decl.Pos(), "no repository read while the toggler points at the passive side",
+				fmt.Sprintf("the repository is read after the toggler was flipped to the passive side (%v): the store info is looked up on the drive being reinstated, is not found on a replaced/empty drive, and the store's info and registry segments are skipped - the reinstated copy silently lacks stores", bad), nil)
+		}
 		c.Check(w.Reaches(w.Fn("fs.replicationTracker.copyStores"), keyIn("fs.StoreRepository.CopyToPassiveFolders")), r4, "copyStores reaches CopyToPassiveFolders", token.NoPos, "reachable", "the reinstatement no longer copies the stores", nil)
 	}
 }
